@@ -94,6 +94,10 @@ def run(ctx, which=WHICH, oracle=None, per_trace=None):
         meta = tr["meta"]
         if not tr["legs"]:
             ctx.count("trace-failed:" + str(tr["end"])[:60])
+            if tr["end"] == "inadmissible-initial-overlap":
+                # hard-core family: every re-seeded random initial state had overlapping cores (outside every property's quantifier)
+                ctx.count("trace-skipped:inadmissible-initial-overlap")
+                continue
             ctx.fail(which + ":run-does-not-start", {"ini": meta.get("ini"), "end": tr["end"], "job": tr.get("job"),
                                                      "exception": (tr.get("exception") or "")[-1500:]},
                      "the run could not be built or raised before the first commit")
